@@ -35,11 +35,43 @@ namespace sim
 }
 #endif
 
+#ifdef SQ_THROWING
+// An element type whose construction from a value, copy construction and copy assignment may throw (injected),
+// lifetime-tracked.  Default construction cannot fail: xtl::missing<T>() is noexcept and default-constructs a T.
+struct FT : sim::Tracked<31, 1, true, true>
+{
+    using Base = sim::Tracked<31, 1, true, true>;
+    FT() noexcept : Base(Base::no_fault()) {}
+    FT(int v) : Base(static_cast<uint64_t>(static_cast<int64_t>(v))) {}
+    explicit operator long long() const { return static_cast<long long>(static_cast<int64_t>(id)); }
+    friend FT operator+(const FT& a, int b) { return FT(static_cast<int>(static_cast<int64_t>(a.id)) + b); }
+    friend std::ostream& operator<<(std::ostream& o, const FT& a) { return o << static_cast<long long>(a); }
+};
+#endif
+
 namespace
 {
     using namespace sim;
     using namespace sqops;
     using T = SQ_T;
+#ifdef SQ_THROWING
+    constexpr bool throwing_elements = true;
+#else
+    constexpr bool throwing_elements = false;
+#endif
+    // only the xtl call itself runs with faults enabled; models, arguments and checks run suspended
+    struct Active
+    {
+        int saved;
+        Active() : saved(fstate().suspend) { fstate().suspend = 0; }
+        ~Active() { fstate().suspend = saved; }
+    };
+    // returns false when an injected throw came out of the call
+    template <class F> bool xcall(F f)
+    {
+        try { Active a; f(); return true; }
+        catch (const Injected&) { return false; }
+    }
 
     // ---- the two container families behind one interface ---------------------------------------
 #if SQ_FAMILY == 0
@@ -103,6 +135,7 @@ namespace
     struct World
     {
         static constexpr bool is_vector = FIXED == 0;
+        Suspend everything_but_xtl_calls;
         Run& run;
         const Plan& plan;
         Rng env;
@@ -112,10 +145,12 @@ namespace
 
         World(Run& r, const Plan& p) : run(r), plan(p), env(stream(p.seed, TAG_ENV))
         {
+            registry().reset();
+            registry().sigprefix = "C11";
             tail = "initial/-";
             for (int i = 0; i < 2; ++i) construct(i, 0, 0, T(), T(), false, env.next() & 1);
         }
-        ~World() { for (int i = 0; i < 2; ++i) { slot[i].get().~C(); slot[i].unguard(); } }
+        ~World() { for (int i = 0; i < 2; ++i) { slot[i].get().~C(); slot[i].unguard(); } clear_pending(); }
         [[noreturn]] void viol(const char* cls, const char* oracle, const std::string& msg) { fail(cls, std::string("C11/") + oracle + "/" + tail, msg); }
 
         static size_t size_pick(uint64_t raw)
@@ -129,6 +164,11 @@ namespace
             return static_cast<size_t>(raw % 40);
         }
         static T val(uint64_t raw) { return static_cast<T>(static_cast<int>(raw % 2001) - 1000); }
+#if SQ_FAMILY == 0
+        static Second second_of(uint64_t raw) { return (raw & 1) != 0; }
+#else
+        static Second second_of(uint64_t raw) { return val(raw); }
+#endif
 
         // constructor forms: 0 default (default-initialised or value-initialised placement), 1 size, 2 size+value, 3 size+closure-kind value, 4 initializer list
         void construct(int i, unsigned form, size_t n, T a, T b, bool f, bool value_init)
@@ -136,45 +176,55 @@ namespace
             slot[i].prepare(env, env.next());       // seeded garbage underneath
             C* p = slot[i].ptr();
             Model& m = model[i];
+            bool ok = true;
             switch (form)
             {
             case 0:
-                if (value_init) new (p) C(); else new (p) C;      // `C x;` is default-initialisation
+                ok = xcall([&] { if (value_init) new (p) C(); else new (p) C; });      // `C x;` is default-initialisation
                 m.assign(is_vector ? 0 : FIXED, fresh_elem());
                 if (!is_vector) { if (value_init) SIM_PROBE("array_value_initialised"); else SIM_PROBE("array_default_initialised_over_dirty_memory"); }
                 break;
-            case 1: construct_size(p, n, m); break;
-            case 2: construct_size_value(p, n, a, b, f, m); break;
-            case 3: construct_size_other(p, n, a, b, f, m); break;
-            default: construct_ilist(p, a, b, m, std::integral_constant<bool, is_vector && SQ_FAMILY == 1>()); break;
+            case 1: ok = construct_size(p, n, m); break;
+            case 2: ok = construct_size_value(p, n, a, b, f, m); break;
+            case 3: ok = construct_size_other(p, n, a, b, f, m); break;
+            default: ok = construct_ilist(p, a, b, m, std::integral_constant<bool, is_vector && SQ_FAMILY == 1>()); break;
+            }
+            if (!ok)
+            {
+                // an element constructor threw: no container exists; every element built so far must be gone again
+                SIM_PROBE("constructor_threw");
+                new (p) C();
+                m.assign(is_vector ? 0 : FIXED, fresh_elem());
             }
         }
 #if SQ_FAMILY == 0
-        void construct_size(C* p, size_t n, Model& m) { new (p) C(n, T(7)); m.assign(n, Elem(T(7), true)); }
-        void construct_size_value(C* p, size_t n, T a, T, bool, Model& m) { new (p) C(n, a); m.assign(n, Elem(a, true)); }
-        void construct_size_other(C* p, size_t n, T a, T, bool f, Model& m)
+        bool construct_size(C* p, size_t n, Model& m) { T seven(7); m.assign(n, Elem(seven, true)); return xcall([&] { new (p) C(n, seven); }); }
+        bool construct_size_value(C* p, size_t n, T a, T, bool, Model& m) { m.assign(n, Elem(a, true)); return xcall([&] { new (p) C(n, a); }); }
+        bool construct_size_other(C* p, size_t n, T a, T, bool f, Model& m)
         {
-            if (f) { new (p) C(n, xtl::xoptional<T, bool>(a, true)); m.assign(n, Elem(a, true)); }
-            else { new (p) C(n, xtl::missing<T>()); m.assign(n, Elem(T(), false)); }
+            if (f) { xtl::xoptional<T, bool> o(a, true); m.assign(n, Elem(a, true)); return xcall([&] { new (p) C(n, o); }); }
+            auto miss = xtl::missing<T>(); m.assign(n, Elem(T(), false)); return xcall([&] { new (p) C(n, miss); });
         }
-        void construct_ilist(C* p, T a, T, Model& m, std::false_type) { new (p) C(is_vector ? 3 : FIXED, a); m.assign(is_vector ? 3 : FIXED, Elem(a, true)); }
-        void construct_ilist(C* p, T a, T b, Model& m, std::true_type) { construct_ilist(p, a, b, m, std::false_type()); }
+        bool construct_ilist(C* p, T a, T, Model& m, std::false_type) { m.assign(is_vector ? 3 : FIXED, Elem(a, true)); return xcall([&] { new (p) C(is_vector ? 3 : FIXED, a); }); }
+        bool construct_ilist(C* p, T a, T b, Model& m, std::true_type) { return construct_ilist(p, a, b, m, std::false_type()); }
 #else
-        void construct_size(C* p, size_t n, Model& m) { new (p) C(n); m.assign(n, fresh_elem()); }
-        void construct_size_value(C* p, size_t n, T a, T b, bool, Model& m) { new (p) C(n, typename C::value_type(a, b)); m.assign(n, Elem(a, b)); }
-        void construct_size_other(C* p, size_t n, T a, T b, bool, Model& m)
+        bool construct_size(C* p, size_t n, Model& m) { new (p) C(n); m.assign(n, fresh_elem()); return true; }
+        bool construct_size_value(C* p, size_t n, T a, T b, bool, Model& m) { new (p) C(n, typename C::value_type(a, b)); m.assign(n, Elem(a, b)); return true; }
+        bool construct_size_other(C* p, size_t n, T a, T b, bool, Model& m)
         {
             T ra = a, rb = b;
             xtl::xcomplex<T&, T&> ref(ra, rb);           // a complex over reference closures
             new (p) C(n, ref); m.assign(n, Elem(a, b));
+            return true;
         }
-        void construct_ilist(C* p, T a, T b, Model& m, std::true_type)
+        bool construct_ilist(C* p, T a, T b, Model& m, std::true_type)
         {
             using V = typename C::value_type;
             new (p) C({V(a, b), V(b, a), V(a, a)});
             m = Model{Elem(a, b), Elem(b, a), Elem(a, a)};
+            return true;
         }
-        void construct_ilist(C* p, T a, T b, Model& m, std::false_type) { construct_size_value(p, is_vector ? 3 : FIXED, a, b, false, m); }
+        bool construct_ilist(C* p, T a, T b, Model& m, std::false_type) { return construct_size_value(p, is_vector ? 3 : FIXED, a, b, false, m); }
 #endif
 
         struct Scope
@@ -231,7 +281,35 @@ namespace
             run.dig(m.size());
             for (const Elem& e : m) { run.dig(static_cast<uint64_t>(static_cast<long long>(e.first))); run.dig(static_cast<uint64_t>(static_cast<long long>(e.second))); }
         }
-        void check_all() { check_one(0); check_one(1); }
+        void check_all()
+        {
+            try { raise_pending(); } catch (Violation& v) { v.sig += "/" + tail; throw; }
+            check_one(0); check_one(1);
+            for (int i = 0; i < 2; ++i) elements_live(slot[i].get(), std::integral_constant<bool, throwing_elements>());
+        }
+        // every element of the value storage is a live object constructed where it is (leaks are caught at teardown, when
+        // the models are gone and nothing may be left alive)
+        void elements_live(const C&, std::false_type) {}
+        void elements_live(const C& c, std::true_type)
+        {
+            for (size_t k = 0; k < size1(c); ++k)
+            {
+                const T& e = c.value()[k];
+                if (!registry().is_live(&e, 31) || !placed(e)) viol("lifetime", "element-not-live", "element " + std::to_string(k) + " of the value storage is not a live, properly constructed object");
+            }
+        }
+        // after an injected throw came out of resize: the property's own words - both storages as long as size() - and
+        // whatever the storages now hold becomes the model (the property does not say which elements survive)
+        void resync_after_throw(int t)
+        {
+            const C& cc = slot[t].get();
+            if (size1(cc) != cc.size() || size2(cc) != cc.size())
+                viol("invariant", "lockstep-after-throw", "after an element constructor threw inside the call the storages have " + std::to_string(size1(cc)) + " and " +
+                     std::to_string(size2(cc)) + " elements, size() is " + std::to_string(cc.size()));
+            model[t].clear();
+            for (size_t k = 0; k < cc.size(); ++k) model[t].push_back(storage(cc, k));
+            SIM_PROBE("resize_threw");
+        }
 
         // ---- operations ------------------------------------------------------------------------------
         void op_construct(const Step& st)
@@ -262,24 +340,25 @@ namespace
             if (n == 0 && !m.empty()) SIM_PROBE("resize_to_zero");
             if (m.empty() && n > 0) SIM_PROBE("grow_from_empty");
             if (n < m.size()) SIM_PROBE("shrink");
-            do_resize(c, m, v, n, a, b, f);
+            if (!do_resize(c, m, v, n, a, b, f)) resync_after_throw(t);
             ++run.changing;
             check_all();
         }
 #if SQ_FAMILY == 0
-        void do_resize(C& c, Model& m, unsigned v, size_t n, T a, T, bool f)
+        bool do_resize(C& c, Model& m, unsigned v, size_t n, T a, T, bool f)
         {
-            if (v == 0) { c.resize(n); m.resize(n, fresh_elem()); }
-            else if (v == 1) { c.resize(n, a); m.resize(n, Elem(a, true)); }
-            else if (f) { c.resize(n, xtl::xoptional<T, bool>(a, true)); m.resize(n, Elem(a, true)); }
-            else { c.resize(n, xtl::missing<T>()); m.resize(n, Elem(T(), false)); }
+            if (v == 0) { m.resize(n, fresh_elem()); return xcall([&] { c.resize(n); }); }
+            if (v == 1) { m.resize(n, Elem(a, true)); return xcall([&] { c.resize(n, a); }); }
+            if (f) { xtl::xoptional<T, bool> o(a, true); m.resize(n, Elem(a, true)); return xcall([&] { c.resize(n, o); }); }
+            auto miss = xtl::missing<T>(); m.resize(n, Elem(T(), false)); return xcall([&] { c.resize(n, miss); });
         }
 #else
-        void do_resize(C& c, Model& m, unsigned v, size_t n, T a, T b, bool)
+        bool do_resize(C& c, Model& m, unsigned v, size_t n, T a, T b, bool)
         {
             if (v == 0) { c.resize(n); m.resize(n, fresh_elem()); }
             else if (v == 1) { c.resize(n, typename C::value_type(a, b)); m.resize(n, Elem(a, b)); }
             else { T ra = a, rb = b; xtl::xcomplex<T&, T&> ref(ra, rb); c.resize(n, ref); m.resize(n, Elem(a, b)); }
+            return true;
         }
 #endif
 
@@ -323,7 +402,7 @@ namespace
             if (m.empty()) { stats().add("skipped.write_to_empty"); return; }
             size_t i = static_cast<size_t>(st.a % m.size());
             T a = val(st.b);
-            Second b = static_cast<Second>(SQ_FAMILY == 0 ? static_cast<T>(st.c & 1) : val(st.c));
+            Second b = second_of(st.c);
             storage_set(c, i, which, a, b);
             if (which == 0) m[i].first = a; else m[i].second = b;
             if (read_ref(c[i]) != m[i]) viol("invariant", "index", "a write to the underlying storage is not visible through the proxy");
@@ -439,15 +518,36 @@ namespace
         }
     }
 
+    // throwing-element configurations: an injected throw at the k-th element construction/assignment of a construct or resize step
+    void gen_throwing(Plan& plan, Rng& cfg, Rng& pr, int tier)
+    {
+        gen(plan, cfg, pr, tier);
+        unsigned pct = 20 + 20 * static_cast<unsigned>(cfg.below(3));
+        for (Step& s : plan.steps)
+            if ((s.op == OP_resize || s.op == OP_construct) && pr.below(100) < pct)
+            {
+                s.fkind = FK_THROW;
+                s.fk = pr.below(3) == 0 ? pr.below(3) : pr.below(45);
+            }
+    }
+
     template <class W> void exec(const Plan& plan, Run& run)
     {
-        std::unique_ptr<W> w(new W(run, plan));
-        w->run_all();
+        {
+            std::unique_ptr<W> w(new W(run, plan));
+            w->run_all();
+        }
+        if (throwing_elements && !registry().live.empty())
+            fail("lifetime", "C11/lifetime/leak/teardown", std::to_string(registry().live.size()) + " element objects were never destroyed");
     }
 
 #define SQ_STR2(x) #x
 #define SQ_STR(x) SQ_STR2(x)
+#ifdef SQ_THROWING
+#define SQ_CFG(name, ...) RegisterCfg reg_##name(std::string(family_name) + "_" #name "_throwing_elements", gen_throwing, exec<__VA_ARGS__>, 1, false)
+#else
 #define SQ_CFG(name, ...) RegisterCfg reg_##name(std::string(family_name) + "_" #name "_" SQ_STR(SQ_T), gen, exec<__VA_ARGS__>, 1, false)
+#endif
     SQ_CFG(vector, World<Vec, 0>);
     SQ_CFG(array1, World<Arr<1>, 1>);
     SQ_CFG(array4, World<Arr<4>, 4>);
